@@ -187,6 +187,18 @@ class Escape:
             if r is not None and r[0] == "func":
                 r[1]._defmod = r[2]
                 return [(None, r[1], None)]
+            if r is None and fd is not None:
+                # a local holding a bound method (`tick = trx.clck_tick`, `for tick in (t.clck_tick for t in L)`): every
+                # method reference taken as a VALUE in this function may be what the local holds (over-approximation)
+                called = {id(c.func) for c in ast.walk(fd) if isinstance(c, ast.Call)}
+                out = []
+                for x in ast.walk(fd):
+                    if isinstance(x, ast.Attribute) and isinstance(x.ctx, ast.Load) and id(x) not in called:
+                        for c_, m_ in self.methods_named(x.attr):
+                            if (c_, m_, False) not in out:
+                                out.append((c_, m_, False))
+                if out:
+                    return out
             return None
         if isinstance(f, ast.Attribute):
             name = f.attr
@@ -246,7 +258,7 @@ class Escape:
                     k = self.expr_kind(n.value, taint, ci, mod)
                     if k:
                         for t in n.targets:
-                            self.taint_target(t, taint, k)
+                            self.taint_target(self._payload_target(t, n.value), taint, k)
                 elif isinstance(n, ast.AugAssign):
                     k = self.expr_kind(n.value, taint, ci, mod)
                     if k:
@@ -260,6 +272,16 @@ class Escape:
         self.block(fd.body, ci, mod, fd, taint, stack, chain, ret)
         self._ret[key] = ret[0]
         return ret[0]
+
+    @staticmethod
+    def _payload_target(t, value):
+        """`data, peer = sock.recvfrom(n)`: only the first element is what the sender wrote; the second is the address
+        pair the operating system reports for an AF_INET datagram socket (host, port) - its shape does not depend on the
+        datagram."""
+        if isinstance(t, (ast.Tuple, ast.List)) and len(t.elts) == 2 and isinstance(value, ast.Call) \
+                and isinstance(value.func, ast.Attribute) and value.func.attr == "recvfrom":
+            return t.elts[0]
+        return t
 
     def taint_target(self, t, taint, k):
         def put(name):
@@ -349,7 +371,7 @@ class Escape:
                     k = self.expr_kind(n.value, t, ci, mod)
                     if k:
                         for tg in n.targets:
-                            self.taint_target(tg, t, k)
+                            self.taint_target(self._payload_target(tg, n.value), t, k)
                 elif isinstance(n, ast.For):
                     k = self.expr_kind(n.iter, t, ci, mod)
                     if k:
